@@ -59,8 +59,29 @@ fn usz(k: u64) -> usize {
 }
 
 /// Run `script` on a concrete iterator of tables.
-pub fn run_script<T: Tbl, I: Iterator<Item = T>>(it: I, script: &[(u64, u64)]) -> Vec<Obs> {
-    run_script_any(it, script, &|t: &T| t.t_blocks().to_vec(), Some(&|a: &T, b: &T| a.cmp(b)))
+pub fn run_script<T: Tbl, I: Iterator<Item = T>>(it: I, script: &[(u64, u64)], expect: Option<&Expect>) -> Vec<Obs> {
+    run_script_any(it, script, &|t: &T| t.t_blocks().to_vec(), Some(&|a: &T, b: &T| a.cmp(b)), expect)
+}
+
+/// What the model expects of a script: the observations, and for every step whether the sequence is already
+/// exhausted before it.  Given to the runner so that it (1) stops at the first step that disagrees — what a broken
+/// iterator does after that is of no interest and may not even return — and (2) before a step on an exhausted
+/// sequence first polls `next()` twice (the second poll is a poll after `None`), which must give `None`: an iterator that starts again after its end is
+/// reported there instead of being sent through a `count()` of 2^64 items.
+pub struct Expect {
+    pub obs: Vec<Obs>,
+    pub exhausted_before: Vec<bool>,
+}
+
+fn agrees(g: &Obs, w: &Obs) -> bool {
+    match (g, w) {
+        (Obs::Hint(lo, hi), Obs::Remaining(r)) => match r {
+            Some(r) => (*lo as u128) <= *r && hi.map_or(true, |h| h as u128 >= *r),
+            // 2^100 or more items left: no usize upper bound can be right
+            None => hi.is_none(),
+        },
+        _ => g == w,
+    }
 }
 
 /// Run `script` on any iterator; `key` turns an item into words, `cmp` (when the items are documented to come in
@@ -70,15 +91,38 @@ pub fn run_script_any<T, I: Iterator<Item = T>>(
     script: &[(u64, u64)],
     key: &dyn Fn(&T) -> Vec<u64>,
     cmp: Option<&dyn Fn(&T, &T) -> std::cmp::Ordering>,
+    expect: Option<&Expect>,
 ) -> Vec<Obs> {
     use std::cmp::Ordering;
     let mut slot = Some(it);
-    let mut out = Vec::new();
-    for &(kind, k) in script {
+    let mut out: Vec<Obs> = Vec::new();
+    for (step, &(kind, k)) in script.iter().enumerate() {
+        if let Some(e) = expect {
+            // stop at the first disagreement
+            if let (Some(g), Some(w)) = (out.last(), e.obs.get(out.len().wrapping_sub(1))) {
+                if !agrees(g, w) {
+                    break;
+                }
+            }
+        }
         let it = match slot.as_mut() {
             Some(it) => it,
             None => break,
         };
+        if let Some(e) = expect {
+            if e.exhausted_before.get(step).copied().unwrap_or(false) && kind != SIZE_HINT {
+                // two polls: the first may be the iterator's first `None`, the second is a poll after `None`
+                let again = match it.next() {
+                    Some(x) => Some(x),
+                    None => it.next(),
+                };
+                if let Some(x) = again {
+                    // the sequence is over but the iterator yields again: report it as this step's observation
+                    out.push(Obs::Item(Some(key(&x))));
+                    break;
+                }
+            }
+        }
         match kind {
             NEXT | NEXT_AFTER_END => out.push(Obs::Item(it.next().map(|t| key(&t)))),
             NTH => out.push(Obs::Item(it.nth(usz(k)).map(|t| key(&t)))),
@@ -269,6 +313,38 @@ pub fn model_script(n: usize, start: &[u64], script: &[(u64, u64)]) -> Vec<Obs> 
     model_script_at(Pos::new(n, start), script)
 }
 
+/// Observations and exhausted-before flags, for `run_script*`.
+pub fn expect_at<P: Position>(p: P, script: &[(u64, u64)]) -> Expect {
+    let mut flags = Vec::new();
+    let mut q = p.clone();
+    for &(kind, k) in script {
+        flags.push(q.cur().is_none());
+        match kind {
+            NEXT | NEXT_AFTER_END => q.advance(1),
+            NTH | SKIP_NEXT => {
+                q.advance(k as u128);
+                q.advance(1);
+            }
+            STEP_BY3 => {
+                // as in the model: up to three items, k apart
+                for j in 0..3 {
+                    if j > 0 {
+                        q.advance(k as u128 - 1);
+                    }
+                    if q.cur().is_none() {
+                        break;
+                    }
+                    q.advance(1);
+                }
+            }
+            TAKE_COUNT | TAKE_MINMAX => q.advance(k as u128),
+            SIZE_HINT => {}
+            _ => break,
+        }
+    }
+    Expect { obs: model_script_at(p, script), exhausted_before: flags }
+}
+
 /// Expected observations of `script` from any modelled position.
 pub fn model_script_at<P: Position>(mut p: P, script: &[(u64, u64)]) -> Vec<Obs> {
     let mut out = Vec::new();
@@ -353,21 +429,13 @@ pub fn model_script_at<P: Position>(mut p: P, script: &[(u64, u64)]) -> Vec<Obs>
 
 /// Compare what the iterator did with what the model says; `None` when they agree, else (step index, text).
 pub fn first_disagreement(got: &[Obs], want: &[Obs]) -> Option<(usize, String)> {
-    if got.len() != want.len() {
-        return Some((std::cmp::min(got.len(), want.len()), format!("{} observations, expected {}", got.len(), want.len())));
-    }
     for (i, (g, w)) in got.iter().zip(want.iter()).enumerate() {
-        let ok = match (g, w) {
-            (Obs::Hint(lo, hi), Obs::Remaining(r)) => match r {
-                Some(r) => (*lo as u128) <= *r && hi.map_or(true, |h| h as u128 >= *r),
-                // 2^100 or more items left: no usize upper bound can be right
-                None => hi.is_none(),
-            },
-            _ => g == w,
-        };
-        if !ok {
+        if !agrees(g, w) {
             return Some((i, format!("observed {:x?}, expected {:x?}", g, w)));
         }
+    }
+    if got.len() != want.len() {
+        return Some((std::cmp::min(got.len(), want.len()), format!("{} observations, expected {}", got.len(), want.len())));
     }
     None
 }
@@ -601,9 +669,9 @@ pub fn check_seq_script<T, I: Iterator<Item = T>>(
             return Err((0, "the iterator does not end within 2^21 items".into()));
         }
     }
-    let want = model_script_at(SeqPos { list: &reference, idx: 0 }, script);
-    let got = run_script_any(mk(), script, key, None);
-    match first_disagreement(&got, &want) {
+    let expect = expect_at(SeqPos { list: &reference, idx: 0 }, script);
+    let got = run_script_any(mk(), script, key, None, Some(&expect));
+    match first_disagreement(&got, &expect.obs) {
         None => Ok(got.len()),
         Some(d) => Err(d),
     }
